@@ -88,6 +88,8 @@ void harness(void){
       CHECK(vf.current_link==tl && vf.current_serialno==sers[tl],"handle now in the target link");
       CHECK(g_reset_serial==(int)sers[tl],"stream state reset to the TARGET link's serial number");
       CHECK(g_pagein_after_reset==1 ,"exactly the chosen page is submitted after the reset");
+      CHECK(vf.ready_state>=STREAMSET,"after a successful page seek the handle is set up for the target link (decoding can start), whatever state a failed earlier call left");
+      if(link0==tl && rs0==OPENED) WITNESS_AT("same link, decode machine dumped before (state after a failed seek)");
       if(link0==tl && rs0==INITSET) CHECK(g_restarts>=1 && vf.ready_state==INITSET,"same link: lapping state restarted");
       if(link0!=tl){ CHECK(vf.ready_state==STREAMSET && env_dsp_live==0,"other link: decode machine torn down"); WITNESS_AT("cross-link seek"); }
       if(best==1) WITNESS_AT("middle page chosen");
